@@ -140,7 +140,7 @@ class BroadcastTo(ArrayExpr):
             input_axis,
             shuffle_expr.operand("name"),
         )
-        return BroadcastTo(shuffled_input, self._shape, self._chunks, self._meta)
+        return BroadcastTo(shuffled_input, self._shape, self._chunks, self.operand("_meta_override"))
 
     def _accept_slice(self, slice_expr):
         """Accept a slice being pushed through BroadcastTo.
@@ -225,15 +225,13 @@ class BroadcastTo(ArrayExpr):
                 start, stop, _ = idx.indices(output_shape[out_dim])
                 new_chunks.append(self._slice_chunks(old_chunk, start, stop - start))
 
-        # Compute meta for the new broadcast
-        new_meta = meta_from_array(sliced_input.expr._meta)
-
-        # Create new BroadcastTo
+        # Create new BroadcastTo; a meta the caller gave is carried along, a
+        # derived one is re-derived by the new node.
         return BroadcastTo(
             sliced_input.expr,
             tuple(new_output_shape),
             tuple(new_chunks),
-            new_meta,
+            self.operand("_meta_override"),
         )
 
     def _slice_chunks(self, chunks, start, length):
@@ -292,8 +290,9 @@ def broadcast_to(x, shape, chunks=None, meta=None):
     x = asarray(x)
     shape = tuple(shape)
 
-    if meta is None:
-        meta = meta_from_array(x._meta)
+    # A ``meta`` the caller did not give is derived from the input by the
+    # expression itself.  Storing a derived 0-d meta as an operand would put its
+    # uninitialised value into the node's name.
 
     # Identity case
     if x.shape == shape and (chunks is None or chunks == x.chunks):
